@@ -12,6 +12,9 @@
             (2) still yielding when the harness stopped at its cap | (3) N: buffer offered after the last length;
             tell = source.tell() afterwards.  RECFM_N items are (len(buffer) buffer[:n_i]).
             obsA = record_iter, obsB = rdw_iter, obsC = bdw_iter (VB only).
+   Resumed reading (fmt 4 = F, 5 = V, 6 = VB): the lens slot holds the passes ((iterator k) ..., iterator 0 record_iter /
+   1 rdw_iter / 2 bdw_iter, k = -1 for a pass run to exhaustion, else islice(it, k)), all made one after the other on ONE
+   reader object; obsA is the list of the passes' observations (items ending tell), obsB = obsC = ().
    A byte string travels as a list of segments: (0 b ...) literal bytes, (1 start step count) = the
    arithmetic progression start, start+step, ... modulo 256 (lossless run-length form; long records stay short). *)
 From Coq Require Import ZArith NArith List Bool Arith.
@@ -94,6 +97,42 @@ Definition finish (image_ok clean indom good agree : bool) (base cls : Z) (detai
     else L [A 0; A (base + (if clean then (if agree then 3 else 4) else (if agree then 9 else 8)))]
   else L [A 9; A base].
 
+Definition dec_pass (s : sx) : pass :=
+  (as_N (nth_sx 0 s), let k := as_Z (nth_sx 1 s) in if k <? 0 then None else Some (Z.to_nat k)).
+
+Fixpoint all2 {X Y : Type} (f : X -> Y -> bool) (xs : list X) (ys : list Y) : bool :=
+  match xs, ys with
+  | [], [] => true
+  | x :: xs', y :: ys' => f x y && all2 f xs' ys'
+  | _, _ => false
+  end.
+
+(* a pass delivered exactly the expected items and ended without an exception *)
+Definition pass_good (o : sx) (items : list (list N)) : bool :=
+  llN_eqb (dec_recs (obs_items o)) items && pair_eqb (obs_end o) (0, 0).
+
+(* a pass behaved as the model: items, ending (suspended and exhausted both look normal to the caller), position *)
+Definition pass_agrees (total : nat) (o : sx) (m : out N (list N)) : bool :=
+  let '(items, f, r) := m in
+  Z.eqb (obs_tell o) (Z.of_nat (total - length r)) && llN_eqb (dec_recs (obs_items o)) items
+  && pair_eqb (obs_end o) (match f with More => (0, 0) | _ => fin_code f end).
+
+Definition last_is_full (ps : list pass) : bool :=
+  match rev ps with (_, None) :: _ => true | _ => false end.
+
+(* resumed reading: every pass delivers what the Spec expects, the last (full) pass leaves nothing *)
+Definition judge_multi (base : Z) (kind : N) (clean image_ok legal : bool) (ps : list pass)
+    (expected : option (list (list (list N)))) (model : list (out N (list N))) (obs : list sx)
+    (total : nat) (nonempty : bool) : sx :=
+  let indom := clean && legal && last_is_full ps && match expected with Some _ => true | None => false end in
+  let good := match expected with
+              | Some e => all2 pass_good obs e && Z.eqb (obs_tell (last obs (L []))) (Z.of_nat total)
+              | None => false
+              end in
+  let agree := all2 (pass_agrees total) obs model in
+  finish image_ok clean indom good agree base (if nonempty then 1 else 0)
+         (L [A (b2z good); A (b2z agree)]).
+
 Definition judge (c : sx) : sx :=
   let fmt := as_Z (nth_sx 0 c) in
   let kind := as_N (nth_sx 1 c) in
@@ -106,7 +145,26 @@ Definition judge (c : sx) : sx :=
   let oB := nth_sx 8 c in
   let oC := nth_sx 9 c in
   let total := length image in
-  if fmt =? 0 then
+  if fmt =? 4 then
+    let recs := dec_recs recs_sx in
+    let ps := map dec_pass (as_list (nth_sx 5 c)) in
+    judge_multi 40 kind clean (negb clean || lN_eqb image (write_F recs)) (legal_F (Z.to_nat param) recs
+                && (N.of_nat (Z.to_nat param) + 4 <=? max_hdr)%N) ps
+                (expect_passes ps recs) (run_passes (F_pass kind param) ps image) (as_list oA) total
+                (match recs with [] => false | _ => true end)
+  else if fmt =? 5 then
+    let recs := dec_recs recs_sx in
+    let ps := map dec_pass (as_list (nth_sx 5 c)) in
+    judge_multi 50 kind clean (negb clean || lN_eqb image (write_V recs)) (legal_V recs) ps
+                (expect_passes ps recs) (run_passes (V_pass kind) ps image) (as_list oA) total
+                (match recs with [] => false | _ => true end)
+  else if fmt =? 6 then
+    let blocks := map dec_recs (as_list recs_sx) in
+    let ps := map dec_pass (as_list (nth_sx 5 c)) in
+    judge_multi 60 kind clean (negb clean || lN_eqb image (write_VB blocks)) (legal_VB blocks) ps
+                (expect_passes_VB ps blocks) (run_passes (VB_pass kind) ps image) (as_list oA) total
+                (match concat blocks with [] => false | _ => true end)
+  else if fmt =? 0 then
     let recs := dec_recs recs_sx in
     let image_ok := negb clean || lN_eqb image (write_F recs) in
     let indom := clean && legal_F (Z.to_nat param) recs in
